@@ -78,7 +78,7 @@ structure Cfg where
   bigUpdWalksRemoved : Bool
   dupChecksBig : Bool
 
-/-- the code under test; whatever the translator did not recognise defaults to the unsafe reading -/
+/-- the code under test; whatever the translator did not recognise defaults to the pessimistic reading -/
 def cfg : Cfg where
   nonDup := Generated.C20.nonDuplicablePrims.getD []
   nonCmp := Generated.C20.nonComparablePrims.getD []
